@@ -1,11 +1,132 @@
 //! C02 — each microstep takes exactly the W3C optimal transition set, deterministically.
 
 use crate::doc::*;
-use crate::engine::{CaseResult, Check, Phase, Tier};
+use crate::engine::{hash_str, CaseResult, Check, Phase, Tier};
+use crate::refmodel::{Interp, Mode, Model};
 use crate::runner::diff_traces;
 use crate::sess::*;
+use crate::tape::Tape;
+use std::collections::{BTreeMap, VecDeque};
 
 pub struct C02;
+
+fn small_profile() -> Profile {
+    let mut p = Profile::structure();
+    p.max_states = 7;
+    p.max_depth = 3;
+    p.max_trans = 3;
+    p.pct_cond = 15;
+    p.pct_eventless = 6;
+    p.pct_targetless = 8;
+    p.pct_unknown_event = 0;
+    p
+}
+
+/// Complete states (configuration, history, data) after each prefix of `events`, from the reference model.
+fn idle_keys(doc: &Doc, events: &[String]) -> Option<Vec<String>> {
+    let m = Model::build(doc);
+    let mut it = Interp::new(&m);
+    if !it.run(events, Mode::FedAtIdle) {
+        return None;
+    }
+    Some(it.idle_keys.clone())
+}
+
+/// Phase 1: a small document; breadth-first exploration of its reachable graph in the reference
+/// model; every edge (state x event) becomes one path that is replayed on the real interpreter.
+fn run_tour(tape: &[u8], want_sample: bool) -> CaseResult {
+    const MAX_STATES: usize = 40;
+    const MAX_DEPTH: usize = 7;
+    let mut t = Tape::new(tape);
+    let p = small_profile();
+    // (tiny documents have nothing to tour: draw again, a few times)
+    let mut doc = gen_doc(&mut t, &p);
+    for _ in 0..4 {
+        if flatten(&doc).len() >= 4 {
+            break;
+        }
+        doc = gen_doc(&mut t, &p);
+    }
+    let xml = crate::render::render_doc(&doc);
+    // alphabet: up to three names that transitions mention, plus one that nothing matches
+    let mut alphabet: Vec<String> = Vec::new();
+    for_each_state(&doc, &mut |s: &State| {
+        for tr in &s.transitions {
+            for e in &tr.events {
+                let base = e.trim_end_matches(".*").trim_end_matches('.').to_string();
+                if base != "*" && !base.starts_with("done.") && !alphabet.contains(&base) && alphabet.len() < 5 {
+                    alphabet.push(base);
+                }
+            }
+        }
+    });
+    alphabet.push("zz".to_string());
+    let hash = hash_str(&xml);
+    let Some(k0) = idle_keys(&doc, &[]) else { return CaseResult::discard("reference model exceeds 200 microsteps in a macrostep") };
+    let mut seen: BTreeMap<String, Vec<String>> = BTreeMap::new();
+    let mut queue: VecDeque<Vec<String>> = VecDeque::new();
+    let mut paths: Vec<Vec<String>> = Vec::new();
+    let mut truncated = false;
+    if let Some(k) = k0.first() {
+        seen.insert(k.clone(), vec![]);
+        queue.push_back(vec![]);
+    } else {
+        // the session ends during its initial macrostep: one path, the empty one
+        paths.push(vec![]);
+    }
+    while let Some(seq) = queue.pop_front() {
+        for e in &alphabet {
+            let mut path = seq.clone();
+            path.push(e.clone());
+            let Some(keys) = idle_keys(&doc, &path) else { return CaseResult::discard("reference model exceeds 200 microsteps in a macrostep") };
+            paths.push(path.clone());
+            if let Some(k) = keys.get(path.len()) {
+                if !seen.contains_key(k) {
+                    if seen.len() >= MAX_STATES || path.len() >= MAX_DEPTH {
+                        truncated = true;
+                    } else {
+                        seen.insert(k.clone(), path.clone());
+                        queue.push_back(path);
+                    }
+                }
+            }
+        }
+    }
+    // a path that is a proper prefix of another one is covered by it
+    let all = paths.clone();
+    paths.retain(|p| !all.iter().any(|q| q.len() > p.len() && q[..p.len()] == p[..]));
+    let mut classes: Vec<String> = Vec::new();
+    let mut interesting = false;
+    let mut sample = None;
+    for path in &paths {
+        let c = Case { doc: doc.clone(), events: path.clone(), mode: Mode::FedAtIdle, xml: xml.clone() };
+        let r = compare_case(&c, want_sample && sample.is_none(), &|st, _| st.multi_candidate || st.max_selected >= 2 || st.preemption, &|_, _, _| Ok(()));
+        match &r.verdict {
+            crate::engine::Verdict::Pass => {
+                interesting |= r.nontrivial;
+                for cl in r.classes {
+                    if !classes.contains(&cl) {
+                        classes.push(cl);
+                    }
+                }
+                if sample.is_none() {
+                    sample = r.sample;
+                }
+            }
+            crate::engine::Verdict::Discard(_) => {}
+            _ => return r,
+        }
+    }
+    let mut r = CaseResult::pass(hash, interesting && seen.len() >= 3);
+    r.evaluations = paths.len() as u64;
+    classes.push(if truncated { "graph_truncated".into() } else { "graph_complete".into() });
+    classes.push(format!("reachable_states_{}", match seen.len() { 0..=2 => "1-2", 3..=9 => "3-9", _ => "10-40" }));
+    r.classes = classes;
+    if want_sample {
+        r.sample = Some(serde_json::json!({"scxml": xml, "alphabet": alphabet, "reachable_states": seen.len(), "maximal_paths": paths.len(), "truncated": truncated, "one_path": sample}));
+    }
+    r
+}
 
 impl Check for C02 {
     fn id(&self) -> &'static str {
@@ -14,7 +135,9 @@ impl Check for C02 {
     fn rule(&self) -> String {
         "generated conformant statecharts with a mark in every entry/exit/transition/initial/history body x generated event sequences; the projected trace (selected transitions per microstep, exit order, \
          body order, entry order, done events, configuration after every microstep, history values at idle) must equal the trace of the reference interpreter, and a second run (fresh parse, fresh session) must \
-         reproduce the first exactly. Non-trivial = some atomic state had >= 2 candidate transitions, or a microstep took >= 2 transitions, or a pre-emption happened (measured on the reference run); \
+         reproduce the first exactly. Second phase (small-document tours): documents with at most 7 states; the reference model explores the reachable graph over (configuration, history value, data) breadth first \
+         (alphabet = up to 5 event names the document mentions + one unmatched name; at most 40 states, depth 7; class graph_complete / graph_truncated says whether the bound was hit) and every edge of that graph is replayed \
+         on the real interpreter as a path from the initial state (evaluations = maximal paths). Non-trivial = some atomic state had >= 2 candidate transitions, or a microstep took >= 2 transitions, or a pre-emption happened (measured on the reference run); \
          distinct = hash of document text + events + mode."
             .into()
     }
@@ -26,18 +149,33 @@ impl Check for C02 {
     }
     fn phases(&self, tier: Tier) -> Vec<Phase> {
         match tier {
-            Tier::Quick => vec![Phase::random("structure-profile", 8_000, 2048).batch(100).watchdog(30_000)],
-            Tier::Thorough => vec![Phase::random("structure-profile", 150_000, 2048).batch(200).watchdog(30_000)],
+            Tier::Quick => vec![Phase::random("structure-profile", 8_000, 2048).batch(100).watchdog(30_000), Phase::random("small-document-tours", 1_200, 1024).batch(10).watchdog(60_000)],
+            Tier::Thorough => vec![Phase::random("structure-profile", 150_000, 2048).batch(200).watchdog(30_000), Phase::random("small-document-tours", 25_000, 1024).batch(20).watchdog(60_000)],
         }
     }
-    fn describe(&self, _phase: usize, tape: &[u8]) -> String {
+    fn describe(&self, phase: usize, tape: &[u8]) -> String {
+        if phase == 1 {
+            let mut t = Tape::new(tape);
+            let p = small_profile();
+            let mut doc = gen_doc(&mut t, &p);
+            for _ in 0..4 {
+                if flatten(&doc).len() >= 4 {
+                    break;
+                }
+                doc = gen_doc(&mut t, &p);
+            }
+            return crate::render::render_doc(&doc);
+        }
         let c = decode(tape, &Profile::structure(), None);
         format!("events {:?} mode {:?}\n{}", c.events, c.mode, c.xml)
     }
     fn min_nontrivial_pct(&self) -> u32 {
         15
     }
-    fn run(&self, _phase: usize, tape: &[u8], want_sample: bool) -> CaseResult {
+    fn run(&self, phase: usize, tape: &[u8], want_sample: bool) -> CaseResult {
+        if phase == 1 {
+            return run_tour(tape, want_sample);
+        }
         let c = decode(tape, &Profile::structure(), None);
         compare_case(
             &c,
